@@ -1,8 +1,8 @@
 #!/bin/bash
 # tools/verify_seed.sh <agent-worktree> [demo test file relative path ...]
 # Confirms for a sub-agent's change: (1) the 43 existing tests pass with the change (demo files moved
-# aside), (2) each demo test file fails with the change and (3) passes without it (git stash of the
-# tracked change). Prints one summary line per step. cargo-test demos only; shell demos are run by hand.
+# aside), (2) each demo test file fails with the change and (3) passes without it (the tracked change is
+# saved as a patch and re-applied: git stash is shared between worktrees and must not be used here). Prints one summary line per step. cargo-test demos only; shell demos are run by hand.
 WT=$(readlink -f "$1"); shift
 cd $WT || exit 2
 DEMOS=$(git status --short | grep '^??' | awk '{print $2}' | grep -E 'tests/.*\.rs$|tests/$')
@@ -16,8 +16,8 @@ for f in $DEMOFILES; do
     crate=$(echo $f | cut -d/ -f1 | tr - _); t=$(basename $f .rs)
     FL=""; grep -q "cfg(weechess_verif)" $f && FL="--cfg weechess_verif"
     echo "demo $t with change: $(RUSTFLAGS="$FL" cargo test --release --offline -p $crate --test $t 2>&1 | grep -E '^test result' | head -1)"
-    git stash -q
+    git diff HEAD > /tmp/verify_seed.$$.patch; git checkout -q -- .
     echo "demo $t without change: $(RUSTFLAGS="$FL" cargo test --release --offline -p $crate --test $t 2>&1 | grep -E '^test result' | head -1)"
-    git stash pop -q
+    git apply /tmp/verify_seed.$$.patch; rm -f /tmp/verify_seed.$$.patch
 done
 git status --short | grep -v target | head
